@@ -17,7 +17,9 @@ def Q(name, src, unwind, tier='quick', **kw):
 
 
 PROPS = {}
-NOT_BUILT = {}
+NOT_BUILT = {
+    'C19': 'not applicable to solver-based checking of the real code: the subject is the C++ front end accepting or rejecting PROGRAMS (68 negative compilation tests, clause-order legality) and the wording of its diagnostics; a rejected program has no intermediate representation to execute symbolically, so the only deciding step is running the compiler on each program - enumeration of concrete runs, which this technique family excludes (DESIGN.md section 6, C19)',
+}
 CUR_TIER, CUR_SEED = 'quick', 1
 GEN = os.path.join(VERIF, '.work', 'gen')
 
@@ -139,7 +141,7 @@ def c08():
         level='model_checking',
         level_text='Bounded: for every clause arrangement (0..3 WITH x 0..3 SIDE_EFFECT x RETURN/THROW/throwing side effect/void) and every WITH outcome vector: WITH clauses run in declaration order and stop at the first false, side effects run once each in order and only then RETURN/THROW once, the value / exception reaches the caller for all 32-bit values, a throwing call still counts, and a shadowed expectation\'s actions never run.',
         bound='clause arrangements up to 3+3 (enumerated shapes, WITH outcomes as shape); argument, returned and thrown values symbolic; ' + STACK_BOUND,
-        outside='recursive mock calls from a side effect; reference / pointer returns (C09 retref shapes)',
+        outside='recursive mock calls from a side effect beyond plumb scene 11; reference returns beyond C08/retref.cpp (T const& via RETURN(captured) / LR_RETURN: same object every call, no copy per call) and the C09 retref shapes',
     )
 
 
@@ -211,7 +213,7 @@ def c13():
         level='model_checking',
         level_text='Bounded: every short history of requirement creation/release, destruction, copy/move/assignment on a deathwatched object yields exactly the reports and is_satisfied/is_saturated values of the 4-state reference; null_on_move special members for arbitrary pointer values. Histories are configurations (enumerated); memory safety of each is decided by the solver.',
         bound=DEATH_BOUND,
-        outside='sequenced monitors (C05), several watched objects interacting',
+        outside='sequenced monitors (C05), several watched objects interacting; requirement lifetimes ended by an exception are covered by C13/unwind.cpp (NAMED and scoped form) only',
     )
 
 
@@ -352,9 +354,9 @@ def c10():
     return dict(
         queries=qs,
         level='model_checking',
-        level_text='Bounded: param_matches(tree, x) equals the mathematical predicate for all 32-bit argument and operand values (and null / non-null pointers), for every matcher expression tree in the enumerated + drawn set of depth <= 3.',
+        level_text='Bounded: param_matches(tree, x) equals the mathematical predicate for all 32-bit argument and operand values (and null / non-null pointers), for every matcher expression tree in the enumerated + drawn set of depth <= 3; the six ordering matchers on double agree with the built-in operators for every pair of 64-bit patterns (NaN, infinities, signed zeros), also typed, negated and under all_of / any_of (C10/fp.cpp).',
         bound='expression trees of depth <=3 over eq/ne/lt/le/gt/ge (duck-typed and <int>), _, ANY(int), plain values, !, *, any_of/all_of/none_of with 1..3 operands, MEMBER_IS; all int values',
-        outside='what the regular expression engine matches (libstdc++; re() is claimed only as: accepts iff the subject is non-null and the engine, replaced by an arbitrary verdict, finds the expression, with the subject range begin..begin+strlen); string operands',
+        outside='what the regular expression engine matches (libstdc++; re() is claimed only as: accepts iff the subject is non-null and the engine, replaced by an arbitrary verdict, finds the expression, with the subject range begin..begin+strlen, or data..data+length for a view-like subject of symbolic length); string operands',
     )
 
 
@@ -385,10 +387,10 @@ def c12():
     return dict(
         queries=qs,
         level='other',
-        level_text='Lock-discipline obligations per API operation, decided by bounded symbolic execution of the instrumented IR: every library function that touches state shared between threads (expectation lists, sequence lists, call counters, limits of an expectation already visible in a sequence, unlinking of linked elements) executes with the global recursive mutex held, and the mutex is balanced on every path including the exceptional one. From this it follows BY ARGUMENT (not by the solver) that conflicting accesses are ordered by the one mutex and each operation is a sequence of at most two critical sections. Schedules themselves are not explored.',
-        technique='bounded symbolic execution (CBMC/SAT) of lock-instrumented IR of the real headers; obligations at the entry of shared-state functions',
+        level_text='(1) Schedules at critical-section granularity (C12/sched.cpp): thread B runs one API operation and thread A\'s operation is injected at a SOLVER-CHOSEN outermost acquisition of the global mutex by B (one preemption, A runs to completion); the outcome - reports, their kind and order, return values, query results - is one that running A and B one at a time can produce, no freed memory is touched (CBMC pointer checks; ASan natively), the lock is balanced. Scenes: release of a destruction requirement || destruction of the object (plain, sequenced); construction with bounds before IN_SEQUENCE || is_completed(); accepted sequenced calls || the queries; mock destruction || queries; release || the call it waits for; two calls on consecutive sequence steps. (2) Lock-discipline obligations per API operation, decided by bounded symbolic execution of the instrumented IR: the global mutex is constructed inside a thread-safe static initialisation, only that mutex object counts as the lock, every library function that touches state shared between threads (expectation lists, sequence lists, call counters, limits of an expectation already visible in a sequence, unlinking of linked elements) executes with the global recursive mutex held, and the mutex is balanced on every path including the exceptional one. From this it follows BY ARGUMENT (not by the solver) that conflicting accesses are ordered by the one mutex and each operation is a sequence of at most two critical sections. Schedules themselves are not explored.',
+        technique='bounded symbolic execution (CBMC/SAT) of the IR of the real headers: (1) schedule harness with the injection point as a symbolic variable, (2) lock-instrumented IR with obligations at the entry of shared-state functions',
         bound='14 operations: accepted / rejected / sequenced call, creation with {IN_SEQUENCE, TIMES, RT_TIMES} in both orders, release (unsequenced, sequenced), is_satisfied/is_saturated, sequence::is_completed, REQUIRE_DESTRUCTION create/release, watched destruction (sequenced), mock destruction, release of a sequenced expectation that outlived its mock',
-        outside='exhaustive or randomised thread schedules, std::atomic semantics of the died flag, custom mutex configurations, sequence-object destruction concurrent with use (caller obligation); a sequential symbolic executor cannot quantify over interleavings',
+        outside='more than one preemption, more than two threads, thread A itself interrupted, randomised free-running schedules, std::atomic memory ordering of the died flag, custom mutex configurations, sequence-object destruction concurrent with use (caller obligation); beyond the one-preemption model a sequential symbolic executor cannot quantify over interleavings',
         assumptions=['vf/lockinst.py names the shared-state functions (listed in its header); private clause lists of an expectation under construction are not shared',
                      'single global recursive mutex modelled as a depth counter'],
     )
@@ -531,7 +533,7 @@ def c20():
         queries=qs,
         level='model_checking',
         level_text='Bounded: for a harness-local coroutine type with lazy and with eager start, 0..3 CO_YIELD clauses, CO_RETURN(value) / CO_THROW / throwing CO_RETURN expression, one or two calls handled by the same expectation and resumed interleaved: matching, counting and SIDE_EFFECT happen at the call; the coroutine yields the clause values in declaration order, then the return value, or raises the exception where the result is taken and never at the call; the coroutines of two calls are independent; all 32-bit clause values; coroutine frames are heap objects under CBMC pointer checks.',
-        bound='clause lists with 0..3 CO_YIELD x 3 endings x eager/lazy x 1..2 calls, the ending clause written after or before the yields (66 shapes); clause expressions touch the call arguments only where they are alive (first clause of an eager coroutine), per the documented lifetime caveat',
+        bound='clause lists with 0..3 CO_YIELD x 3 endings x eager/lazy x 1..2 calls, the ending clause written after or before the yields (66 shapes), a throwing CO_YIELD clause at position 1..2 (6 shapes), a CO_RETURN expression reading a by-copy capture with a destructive move constructor over two calls (4 shapes); clause expressions touch the call arguments only where they are alive (first clause of an eager coroutine), per the documented lifetime caveat',
         outside='generator-shaped (range) return types, std::generator (not in this libstdc++), void coroutines, CO_YIELD on move-only values',
         assumptions=['C++20 lowering of coroutines by clang-14 (CoroSplit at -O1) is what is executed'],
     )
